@@ -389,18 +389,49 @@ class Inliner:
         rename: Dict[str, str] = {}
         subst: Dict[str, ast.AST] = {}
         pre: List[ast.stmt] = []
+        # names the caller uses outside the call statement: a helper local may keep its own
+        # name only when the caller knows no such name (otherwise it is renamed apart);
+        # names the call statement itself assigns are dead across the call
+        s_targets = set()
+        if isinstance(s, (ast.Assign, ast.AnnAssign, ast.AugAssign)):
+            for t_ in (s.targets if isinstance(s, ast.Assign) else [s.target]):
+                for n in ast.walk(t_):
+                    if isinstance(n, ast.Name):
+                        s_targets.add(n.id)
+        # a conservative count: a name is "free" for the helper when it appears in the caller
+        # only inside the call statement's targets
+        name_counts: Dict[str, int] = {}
+        for n in ast.walk(ctx.node):
+            if isinstance(n, ast.Name):
+                name_counts[n.id] = name_counts.get(n.id, 0) + 1
+            elif isinstance(n, ast.arg):
+                name_counts[n.arg] = name_counts.get(n.arg, 0) + 2
+        def free_for_helper(nm: str) -> bool:
+            return nm not in name_counts or (nm in s_targets and nm not in getattr(self, "_reserved", set()))
+
         for p_ in params:
             v = bind[p_]
             if p_ not in stored and _simple(v):
                 subst[p_] = v
+            elif isinstance(v, ast.Name) and v.id in s_targets and sum(1 for q in params if isinstance(bind[q], ast.Name) and bind[q].id == v.id) == 1:
+                # `X, .. = helper(X, ..)`: the helper may work on the caller's own variable
+                if p_ != v.id:
+                    rename[p_] = v.id
             else:
                 rename[p_] = p_ + tag
                 pre.append(ast.Assign(targets=[ast.Name(id=rename[p_], ctx=ast.Store())], value=v))
-        for n_ in stored:
-            if n_ not in rename and n_ not in imported:
-                rename[n_] = n_ + tag
+        taken = set(rename.values())
+        for n_ in sorted(stored):
+            if n_ in rename or n_ in imported or n_ in params:
+                continue
+            if free_for_helper(n_) and n_ not in taken:
+                taken.add(n_)
+                continue  # keeps its own name
+            rename[n_] = n_ + tag
         # names of the closure's free variables are the caller's own: leave them
         body = [_Rename(rename, subst).visit(st) for st in body]
+        if subst:
+            body = _fold_block(body)
         # pure-expression helper
         if len(body) == 1 and isinstance(body[0], ast.Return) and body[0].value is not None and not pre:
             return [], body[0].value, False
@@ -435,7 +466,7 @@ class Inliner:
         if isinstance(s, ast.Assign) and is_whole and len(s.targets) == 1 and isinstance(s.targets[0], ast.Tuple) and all(isinstance(e, ast.Name) or (isinstance(e, ast.Attribute) and isinstance(e.value, ast.Name) and e.value.id == "self" and not any(isinstance(x, ast.Attribute) and x.attr == e.attr for st_ in body for x in ast.walk(st_))) for e in s.targets[0].elts):
             tnames = {e.id for e in s.targets[0].elts if isinstance(e, ast.Name)}
             rets = _returns_of(body)
-            if rets and all(isinstance(r.value, ast.Tuple) and len(r.value.elts) == len(s.targets[0].elts) for r in rets) and not (tnames & _names_loaded(body)):
+            if rets and all(isinstance(r.value, ast.Tuple) and len(r.value.elts) == len(s.targets[0].elts) for r in rets):
                 conv = _single_exit(body, s.targets[0])
                 if conv is not None:
                     new = pre + conv
@@ -1003,3 +1034,71 @@ def sink_selected_callees(tree: ast.Module) -> int:
     if c.count:
         ast.fix_missing_locations(tree)
     return c.count
+
+
+# ---------------------------------------------------------------- constant tests after substitution
+def _const_truth(e: ast.AST) -> Optional[bool]:
+    """truth of a test made of constants only (after a constant argument was
+    substituted for a parameter): `'_p' is None`, `not None`, `3 == 3`"""
+    if isinstance(e, ast.Constant):
+        return bool(e.value)
+    if isinstance(e, ast.UnaryOp) and isinstance(e.op, ast.Not):
+        t = _const_truth(e.operand)
+        return None if t is None else (not t)
+    if isinstance(e, ast.BoolOp):
+        vals = [_const_truth(v) for v in e.values]
+        if isinstance(e.op, ast.And):
+            if any(v is False for v in vals):
+                return False
+            return True if all(v is True for v in vals) else None
+        if any(v is True for v in vals):
+            return True
+        return False if all(v is False for v in vals) else None
+    if isinstance(e, ast.Compare) and len(e.ops) == 1 and isinstance(e.left, ast.Constant) and isinstance(e.comparators[0], ast.Constant):
+        a, b, op = e.left.value, e.comparators[0].value, e.ops[0]
+        if isinstance(op, ast.Is):
+            return (a is None and b is None) if (a is None or b is None) else None
+        if isinstance(op, ast.IsNot):
+            return not (a is None and b is None) if (a is None or b is None) else None
+        if isinstance(op, ast.Eq):
+            return a == b
+        if isinstance(op, ast.NotEq):
+            return a != b
+    return None
+
+
+class _FoldExpr(ast.NodeTransformer):
+    def visit_IfExp(self, n):
+        self.generic_visit(n)
+        t = _const_truth(n.test)
+        if t is True:
+            return n.body
+        if t is False:
+            return n.orelse
+        return n
+
+
+def _fold_block(stmts: List[ast.stmt]) -> List[ast.stmt]:
+    out: List[ast.stmt] = []
+    for s in stmts:
+        if isinstance(s, (ast.FunctionDef, ast.AsyncFunctionDef, ast.ClassDef)):
+            out.append(s)
+            continue
+        if isinstance(s, ast.If):
+            t = _const_truth(s.test)
+            if t is True:
+                out.extend(_fold_block(s.body))
+                continue
+            if t is False:
+                out.extend(_fold_block(s.orelse))
+                continue
+        for fld in ("body", "orelse", "finalbody"):
+            b = getattr(s, fld, None)
+            if isinstance(b, list) and b and isinstance(b[0], ast.stmt):
+                nb = _fold_block(b)
+                setattr(s, fld, nb if nb or fld != "body" else [ast.Pass()])
+        if isinstance(s, ast.Try):
+            for h in s.handlers:
+                h.body = _fold_block(h.body) or [ast.Pass()]
+        out.append(_FoldExpr().visit(s))
+    return out or [ast.Pass()]
